@@ -17,6 +17,7 @@ import (
 	m3thrift "github.com/uber-go/tally/v4/m3/thrift/v2"
 	"pgregory.net/rapid"
 
+	"verifharness/internal/collide"
 	"verifharness/internal/m3h"
 	"verifharness/internal/pbt"
 	"verifharness/internal/udpsink"
@@ -35,6 +36,10 @@ type POp struct {
 	// cannot share a packet with anything and does not even fit one - it must still be delivered,
 	// exactly once (the size bound of C12 is conditional on every metric fitting; delivery is not)
 	Pad int `json:"pad,omitempty"`
+	// Coll (histograms): a histogram with the plain specification is allocated first under another
+	// name, and THIS histogram gets a different specification of the same kind that has the same
+	// identity in the library's bucket caches (collide.Companions); its bucket tags must be its own
+	Coll bool `json:"coll,omitempty"`
 }
 
 type Case struct {
@@ -136,6 +141,7 @@ func gen(t *rapid.T) Case {
 				op.I = pbt.AnyInt64().Draw(t, "i")
 				op.F = pbt.AnyFloat().Draw(t, "f")
 				op.NB = rapid.IntRange(0, 6).Draw(t, "nb")
+				op.Coll = rapid.IntRange(0, 3).Draw(t, "coll") == 0
 				op.B = rapid.IntRange(0, 6).Draw(t, "b")
 				op.Rep = rapid.SampledFrom([]int{0, 0, 1, 3, 20}).Draw(t, "rep")
 				if c.MaxPacket > 0 && c.MaxPacket <= 4000 && rapid.IntRange(0, 15).Draw(t, "pad?") == 0 {
@@ -175,6 +181,7 @@ type reported struct {
 	ret   int64 // wall clock (ns) after the report call returned
 	hist  string
 	bidx  int
+	spec  string // histogram buckets: the specification the bucket belongs to (key of the reference)
 }
 
 func run(c Case) (pbt.Outcome, error) {
@@ -274,6 +281,12 @@ func run(c Case) (pbt.Outcome, error) {
 	}
 	var wantMu sync.Mutex
 	var want []reported
+	usedSpecs := map[string]tally.Buckets{} // specification key -> specification (for the references)
+	noteSpec := func(k string, b tally.Buckets) {
+		wantMu.Lock()
+		usedSpecs[k] = b
+		wantMu.Unlock()
+	}
 	tagsets := map[string]bool{}
 	var wg sync.WaitGroup
 	var sharedC tally.CachedCount
@@ -325,6 +338,7 @@ func run(c Case) (pbt.Outcome, error) {
 				var do func(k int)
 				hist := ""
 				bidx := 0
+				specKey := ""
 				switch op.K {
 				case "counter":
 					h := r.AllocateCounter(name, tags)
@@ -349,9 +363,20 @@ func run(c Case) (pbt.Outcome, error) {
 					for j := range spec {
 						spec[j] = float64(j)*2.5 - 3
 					}
+					if op.Coll {
+						for _, comp := range collide.Companions(spec) {
+							if vb, ok := comp.(tally.ValueBuckets); ok && len(vb) > 0 {
+								_ = r.AllocateHistogram("collbase", nil, spec)
+								spec = vb
+								break
+							}
+						}
+					}
 					h := r.AllocateHistogram(name, tags, spec)
 					pairs := tally.BucketPairs(spec)
 					bidx = op.B % len(pairs)
+					specKey = specKeyOf(spec)
+					noteSpec(specKey, spec)
 					b := h.ValueBucket(pairs[bidx].LowerBoundValue(), pairs[bidx].UpperBoundValue())
 					exp.Value.MetricType = m3thrift.MetricType_COUNTER
 					hist = fmt.Sprintf("p%d.o%d", pi, oi)
@@ -361,9 +386,20 @@ func run(c Case) (pbt.Outcome, error) {
 					for j := range spec {
 						spec[j] = time.Duration(j)*time.Millisecond - time.Millisecond
 					}
+					if op.Coll {
+						for _, comp := range collide.Companions(spec) {
+							if db, ok := comp.(tally.DurationBuckets); ok && len(db) > 0 {
+								_ = r.AllocateHistogram("collbase", nil, spec)
+								spec = db
+								break
+							}
+						}
+					}
 					h := r.AllocateHistogram(name, tags, spec)
 					pairs := tally.BucketPairs(spec)
 					bidx = op.B % len(pairs)
+					specKey = specKeyOf(spec)
+					noteSpec(specKey, spec)
 					b := h.DurationBucket(pairs[bidx].LowerBoundDuration(), pairs[bidx].UpperBoundDuration())
 					exp.Value.MetricType = m3thrift.MetricType_COUNTER
 					hist = fmt.Sprintf("p%d.o%d", pi, oi)
@@ -377,7 +413,7 @@ func run(c Case) (pbt.Outcome, error) {
 						e.Name = "HIST:" + e.Name
 					}
 					wantMu.Lock()
-					want = append(want, reported{canon: m3h.Canon(e), ret: ret, hist: hist, bidx: bidx})
+					want = append(want, reported{canon: m3h.Canon(e), ret: ret, hist: hist, bidx: bidx, spec: specKey})
 					tagsets[fmt.Sprint(len(tags), m3h.Canon(m3thrift.Metric{Tags: exp.Tags}))] = true
 					wantMu.Unlock()
 				}
@@ -434,6 +470,32 @@ func run(c Case) (pbt.Outcome, error) {
 			latest[w.canon] = w.ret
 		}
 	}
+	// bucket tags of ordinary histograms: a histogram's bucket ids and ranges do not depend on which
+	// other histograms the reporter has seen. For every specification used, a reference reporter of
+	// its own (same protocol, tag names and precision) with that ONE histogram tells what they are.
+	type idRange struct{ id, rng string }
+	type bucketOf struct {
+		spec string
+		bidx int
+	}
+	bucketWant := map[string][]bucketOf{}
+	for _, w := range want {
+		if w.spec != "" {
+			bucketWant[w.canon] = append(bucketWant[w.canon], bucketOf{w.spec, w.bidx})
+		}
+	}
+	refs := map[string]map[int]idRange{}
+	for key, spec := range usedSpecs {
+		ref, rerr := referenceBucketTags(c, proto, spec)
+		if rerr != nil {
+			return out, fmt.Errorf("harness: reference reporter: %v", rerr)
+		}
+		out0 := map[int]idRange{}
+		for i, p := range ref {
+			out0[i] = idRange{p[0], p[1]}
+		}
+		refs[key] = out0
+	}
 	commonWant := map[string]string{"service": "svc", "env": "test"}
 	for k, v := range c.Common {
 		commonWant[string(k)] = string(v)
@@ -451,6 +513,7 @@ func run(c Case) (pbt.Outcome, error) {
 			errs.Addf("destination %d: Close returned after %d batches were emitted but only %d datagrams arrived within 30s", si, nb, s.Count())
 		}
 		gotCount := map[string]int{}
+		tagMsgs := 0
 		type bucketSeen struct{ id, rng string }
 		wideIDs := map[int64]string{} // samples (= bucket index + 1) -> bucket id tag value
 		wideRanges := map[int64]string{}
@@ -480,6 +543,7 @@ func run(c Case) (pbt.Outcome, error) {
 				// one tag of each bucket-tag name is taken out such that what remains is a reported
 				// histogram, if there is such a choice.
 				var ids, rngs []int
+				ca, cb := -1, -1 // which tags were taken to be the reporter's bucket id and bucket range
 				for ti, tg := range m.Tags {
 					switch tg.Name {
 					case idName:
@@ -511,6 +575,7 @@ func run(c Case) (pbt.Outcome, error) {
 						rngs = []int{-1}
 					}
 					cm.Tags = without(ids[0], rngs[0])
+					ca, cb = ids[0], rngs[0]
 					found := false
 					for _, a := range ids {
 						for _, b := range rngs {
@@ -524,6 +589,7 @@ func run(c Case) (pbt.Outcome, error) {
 							try.Tags = without(a, b)
 							if k := m3h.Canon(try); gotCount[k] < wantCount[k] {
 								cm.Tags = try.Tags
+								ca, cb = a, b
 								found = true
 							}
 						}
@@ -546,6 +612,22 @@ func run(c Case) (pbt.Outcome, error) {
 				}
 				canon := m3h.Canon(cm)
 				gotCount[canon]++
+				if cands := bucketWant[canon]; len(cands) > 0 && ca >= 0 && cb >= 0 {
+					ok := false
+					var wantPairs []idRange
+					for _, cd := range cands {
+						if r, have := refs[cd.spec][cd.bidx]; have {
+							wantPairs = append(wantPairs, r)
+							if r.id == m.Tags[ca].Value && r.rng == m.Tags[cb].Value {
+								ok = true
+							}
+						}
+					}
+					if !ok && len(wantPairs) > 0 && tagMsgs < 3 {
+						tagMsgs++
+						errs.Addf("destination %d: bucket metric %q carries bucket id %q and range %q; a reporter that has only this histogram gives that bucket %v (the tags of a histogram's buckets do not depend on the other histograms of the reporter)", si, m.Name, m.Tags[ca].Value, m.Tags[cb].Value, wantPairs)
+					}
+				}
 				if _, ok := wantCount[canon]; ok {
 					if m.Timestamp < tConstructed-int64(time.Millisecond) {
 						errs.Addf("metric %q has timestamp %d, earlier than the reporter's construction at %d", m.Name, m.Timestamp, tConstructed)
@@ -622,7 +704,95 @@ func run(c Case) (pbt.Outcome, error) {
 func TestC13(t *testing.T) {
 	pbt.Main(t, pbt.Prop[Case]{
 		ID: "C13", Name: "delivery",
-		Rule: "rapid-generated M3 reporter configurations (Compact/Binary, 1..3 real loopback destinations - in a quarter of the cases with an additional unreachable destination somewhere in the host list (sends to it fail), which must not disturb the live ones -, queue size 1..4096, common tags, packet size, default or custom bucket tag names) and 1..4 producer goroutines (real threads) started right after NewReporter, each a history of 1..12 Allocate*+Report*/Flush ops (and, in a sixth of the cases, bursts of 50..3000 distinct values per producer through ONE counter, gauge and timer handle shared by all producers) with arbitrary byte-string names, tag keys/values drawn from an alphabet rich in '=' (so that different tag maps have equal 'k=v' strings), full-range int64/float64 values, occasionally a name longer than MaxPacketSizeBytes (such a metric must still be delivered exactly once), histogram buckets of strictly increasing specs, repeats; in a quarter of the cases one more value or duration histogram with 2..12000 bounds (sizes around the powers of ten) whose first, last and power-of-ten-neighbouring buckets each get index+1 samples; then Close. Oracle per destination: every datagram decodes as exactly one well-formed one-way message with the configured common tags (service and env included); the multiset of decoded non-internal metrics (name, kind, value bits, tag set, bucket tags present) equals the multiset reported; timestamps within [construction, return of the report call] (+1ms); the bucket ids of the wide histogram increase with the bucket index, compared as strings and as numbers, and its buckets carry pairwise different bucket-range tags; Close returned only after every emitted batch had been sent (all datagrams present). Non-trivial: >=2 distinct tag sets and >=2 datagrams. Distinct: FNV-64 of the case JSON.",
+		Rule: "rapid-generated M3 reporter configurations (Compact/Binary, 1..3 real loopback destinations - in a quarter of the cases with an additional unreachable destination somewhere in the host list (sends to it fail), which must not disturb the live ones -, queue size 1..4096, common tags, packet size, default or custom bucket tag names) and 1..4 producer goroutines (real threads) started right after NewReporter, each a history of 1..12 Allocate*+Report*/Flush ops (and, in a sixth of the cases, bursts of 50..3000 distinct values per producer through ONE counter, gauge and timer handle shared by all producers) with arbitrary byte-string names, tag keys/values drawn from an alphabet rich in '=' (so that different tag maps have equal 'k=v' strings), full-range int64/float64 values, occasionally a name longer than MaxPacketSizeBytes (such a metric must still be delivered exactly once), histogram buckets of strictly increasing specs (in a quarter of the histograms a different specification with the same identity in the library's bucket caches, allocated after a histogram with the plain one), repeats; in a quarter of the cases one more value or duration histogram with 2..12000 bounds (sizes around the powers of ten) whose first, last and power-of-ten-neighbouring buckets each get index+1 samples; then Close. Oracle per destination: every datagram decodes as exactly one well-formed one-way message with the configured common tags (service and env included); the multiset of decoded non-internal metrics (name, kind, value bits, tag set, bucket tags present) equals the multiset reported; timestamps within [construction, return of the report call] (+1ms); every bucket metric of an ordinary histogram carries the bucket id and range that a reporter with only that histogram gives the bucket; the bucket ids of the wide histogram increase with the bucket index, compared as strings and as numbers, and its buckets carry pairwise different bucket-range tags; Close returned only after every emitted batch had been sent (all datagrams present). Non-trivial: >=2 distinct tag sets and >=2 datagrams. Distinct: FNV-64 of the case JSON.",
 		Gen:  gen, Run: run, HangAfter: 90 * time.Second,
 	})
+}
+
+// specKeyOf identifies a bucket specification by kind and bit patterns.
+func specKeyOf(b tally.Buckets) string {
+	switch v := b.(type) {
+	case tally.ValueBuckets:
+		k := "v"
+		for _, f := range v {
+			k += fmt.Sprintf(":%016x", math.Float64bits(f))
+		}
+		return k
+	case tally.DurationBuckets:
+		k := "d"
+		for _, d := range v {
+			k += fmt.Sprintf(":%d", int64(d))
+		}
+		return k
+	}
+	return fmt.Sprintf("%T:%v", b, b)
+}
+
+// referenceBucketTags builds a reporter of its own with ONE histogram of the given specification,
+// reports index+1 samples on every bucket and returns, per bucket index, the bucket id and bucket
+// range tag values it was sent with.
+func referenceBucketTags(c Case, proto m3.Protocol, spec tally.Buckets) (map[int][2]string, error) {
+	sink, err := udpsink.New()
+	if err != nil {
+		return nil, err
+	}
+	defer sink.Close()
+	idName, bucketName := "bucketid", "bucket"
+	opts := m3.Options{HostPorts: []string{sink.Addr}, Service: "ref", Env: "test", Protocol: proto, MaxQueueSize: 4096, MaxPacketSizeBytes: 65000}
+	if c.ViaConfig == 0 {
+		opts.HistogramBucketTagPrecision = c.Precision
+		if c.IDName != "" {
+			idName, bucketName = c.IDName, c.BucketName
+			opts.HistogramBucketIDName, opts.HistogramBucketName = c.IDName, c.BucketName
+		}
+	}
+	r, err := m3.NewReporter(opts)
+	if err != nil {
+		return nil, err
+	}
+	h := r.AllocateHistogram("ref", nil, spec)
+	pairs := tally.BucketPairs(spec)
+	_, isDur := spec.(tally.DurationBuckets)
+	for i, p := range pairs {
+		if isDur {
+			h.DurationBucket(p.LowerBoundDuration(), p.UpperBoundDuration()).ReportSamples(int64(i) + 1)
+		} else {
+			h.ValueBucket(p.LowerBoundValue(), p.UpperBoundValue()).ReportSamples(int64(i) + 1)
+		}
+	}
+	if err := r.Close(); err != nil {
+		return nil, err
+	}
+	out := map[int][2]string{}
+	deadline := time.Now().Add(30 * time.Second)
+	for len(out) < len(pairs) && time.Now().Before(deadline) {
+		for _, d := range sink.Datagrams() {
+			_, batch, derr := m3h.Decode(proto == m3.Binary, d)
+			if derr != nil {
+				return nil, derr
+			}
+			for _, m := range batch.Metrics {
+				if m.Name != "ref" {
+					continue
+				}
+				var pr [2]string
+				for _, tg := range m.Tags {
+					switch tg.Name {
+					case idName:
+						pr[0] = tg.Value
+					case bucketName:
+						pr[1] = tg.Value
+					}
+				}
+				out[int(m.Value.Count)-1] = pr
+			}
+		}
+		if len(out) < len(pairs) {
+			time.Sleep(200 * time.Microsecond)
+		}
+	}
+	if len(out) < len(pairs) {
+		return nil, fmt.Errorf("only %d of %d reference buckets arrived", len(out), len(pairs))
+	}
+	return out, nil
 }
